@@ -162,6 +162,21 @@ Qed.
 Theorem valid_escaped_novar_is_dq_safe : forall s, validate_escaped_novar s = true -> dq_ok s = true.
 Proof. intros s H. exact (escaped_shape_dq_safe _ _ escaped_shape_novar H). Qed.
 
+(* ... and holds no dollar at all: NGINX has no escape for the dollar, so a value rendered into an interpolated argument
+   must not contain one *)
+Lemma novar_no_dollar_facts : atoms_within re_escaped_novar (fun c => negb (aeqb c "$")) = true.
+Proof. vm_compute. reflexivity. Qed.
+
+Lemma no_dollar_forallb : forall s, forallb (fun c => negb (aeqb c "$")) s = true -> contains_char "$" s = false.
+Proof.
+  induction s as [|c s IH]; intros H; [reflexivity|].
+  cbn [forallb] in H. apply andb_true_iff in H. destruct H as [Hc Hs]. apply negb_true_iff in Hc.
+  unfold contains_char in *. cbn [existsb]. unfold aeqb in *. rewrite Ascii.eqb_sym, Hc. cbn [orb]. apply IH. exact Hs.
+Qed.
+
+Theorem valid_escaped_novar_has_no_dollar : forall s, validate_escaped_novar s = true -> contains_char "$" s = false.
+Proof. intros s H. apply no_dollar_forallb. exact (atoms_within_spec _ _ _ novar_no_dollar_facts H). Qed.
+
 (* ---------------------------------------------------------------- plain values *)
 
 Definition plain_regex_facts : bool :=
